@@ -4,6 +4,8 @@
 import PigeonVerif.Proofs.TermProof
 import PigeonVerif.Proofs.FuelMono
 import PigeonVerif.Proofs.TermMemo
+import PigeonVerif.Proofs.BudgetTransparent
+import PigeonVerif.Properties.C11Base
 
 namespace PV
 namespace RT
@@ -129,6 +131,64 @@ theorem C16_terminates_any_options (E : Env) (n : Nat) (hn : E.opts.maxExpr = so
 theorem C16_parse_total_any_options (E : Env) (n : Nat) (hn : E.opts.maxExpr = some n) (fuel : Nat)
     (hf : 2 * n + 2 ≤ fuel) : parse E fuel = parse E (2 * n + 2) ∧ parse E (2 * n + 2) ≠ .oof :=
   ⟨parse_mono E hf (C16_terminates_any_options E n hn _ (Nat.le_refl _)), C16_terminates_any_options E n hn _ (Nat.le_refl _)⟩
+
+/-! ### a budget that is not exhausted is invisible (whole parse, every configuration) -/
+
+theorem finish_noBudget (E : Env) (o : Outcome) : finish (withoutBudget E) o = finish E o := by
+  cases o <;> rfl
+
+/-- **C16 (h) — "with a budget that is not exhausted the result is identical to the unbounded parse".** EVERY grammar, code
+    environment, template variant and option set (Memoize, left recursion, Recover, …), every input and depth: if `Parse`
+    with `MaxExpressions(n)` returns a result whose error list does not report the budget error, then `Parse` WITHOUT
+    `MaxExpressions` returns exactly the same result - value, error list, and final parser state (counters included).
+    (`Proofs/BudgetTransparent.lean`: the budget is read in two places, both raise a panic nothing catches.) -/
+theorem C16_unexhausted_budget_is_transparent (E : Env) (f : Nat) (v : Val) (errs : List String) (s : PState)
+    (h : parse E f = .ret v errs s) (hno : ∀ m ∈ errs, ∀ p : String, m ≠ p ++ ": " ++ errMaxExprCnt) :
+    parse (withoutBudget E) f = .ret v errs s := by
+  unfold parse at h ⊢
+  have hr : (withoutBudget E).rules = E.rules := rfl
+  have hi : initState (withoutBudget E) = initState E := rfl
+  have hs : startState (withoutBudget E) = startState E := rfl
+  simp only [hr, hi, hs, noBudget_addErr]
+  cases hrules : E.rules with
+  | nil => simp only [hrules] at h; exact h
+  | cons first rest =>
+    simp only [hrules] at h ⊢
+    have he : entryName (withoutBudget E) first = entryName E first := rfl
+    simp only [he, noBudget_findRule]
+    cases hf : E.findRule (entryName E first) with
+    | none => simp only [hf] at h; exact h
+    | some r =>
+      simp only [hf] at h ⊢
+      have hnbp : ¬ (parseRuleWrap E (parseExpr E f) f r (startState E)).BP := by
+        intro hbp
+        cases ho : parseRuleWrap E (parseExpr E f) f r (startState E) with
+        | oof => rw [ho] at hbp; exact hbp
+        | done v1 ok s1 => rw [ho] at hbp; exact hbp
+        | panic p s1 =>
+          rw [ho] at hbp h
+          cases p with
+          | str m => exact hbp
+          | int n => exact hbp
+          | err m =>
+            have hm : m = errMaxExprCnt := hbp
+            subst hm
+            by_cases hrec : E.opts.recover = true
+            · simp only [finish, hrec, if_true] at h
+              injection h with _ h2 _
+              have hx : errPrefix E s1 s1.pt.pos ++ ": " ++ errMaxExprCnt ∈ errs := by
+                rw [← h2]
+                refine (C11_dedupe_mem _ _).mpr ?_
+                simp [addErr, addErrAt, panicMessage]
+              exact hno _ hx _ rfl
+            · simp [finish, hrec] at h
+      rw [ruleWrap_nb (parseExpr_nb E f) f r (startState E) hnbp, finish_noBudget]
+      exact h
+
+/-- the hypothesis is met whenever the parse succeeded without errors (`errs = []`), and by every error list that does not
+    mention the budget -/
+example (E : Env) (f : Nat) (v : Val) (s : PState) (h : parse E f = .ret v [] s) : parse (withoutBudget E) f = .ret v [] s :=
+  C16_unexhausted_budget_is_transparent E f v [] s h (fun m hm => by simp at hm)
 
 end RT
 end PV
